@@ -34,6 +34,7 @@ var generators = map[string]genFunc{
 	"own":     GenOwn,
 	"health":  GenHealth,
 	"snap":    GenSnap,
+	"stress":  GenStress,
 }
 
 type runSummary struct {
@@ -102,7 +103,11 @@ func TestRun(t *testing.T) {
 			t.Fatalf("unknown family %q", family)
 		}
 		for i := 0; i < n; i++ {
-			plans = append(plans, gen(seed, first+i, tier))
+			p := gen(seed, first+i, tier)
+			if s := os.Getenv("VERIF_SCHED"); s != "" {
+				p.Sched = s // e.g. "free": no controller, the real scheduler decides (used under the race detector)
+			}
+			plans = append(plans, p)
 			ids = append(ids, first+i)
 		}
 	}
